@@ -845,6 +845,8 @@ def effects_run(fns, table, comb):
     if m is None:
         undecided_e.append('fn init(..) not found in sv-parser-parser/src/lib.rs (anchor lost)')
     else:
+        if re.search(r'\b(if|match|while|for|loop|return)\b|\?', m.group(1)):
+            failures.append(fail('init', 'C07.init-resets-unconditionally', 'init() contains control flow: a reset that is skipped on some path leaves state behind', ['C07', 'C13', 'C15', 'C17', 'C20'], Dummy('sv-parser-parser/src/lib.rs', lib_raw[:m.start()].count('\n') + 1)))
         for need in ('nom_packrat::init!();', 'clear_directive();', 'clear_version();'):
             if need not in init_body:
                 failures.append(fail('init', 'C07.init-resets.%s' % need.strip('();').replace('::', '_').replace('!', ''), 'init() does not call %s' % need, ['C07'], Dummy('sv-parser-parser/src/lib.rs', 1)))
